@@ -348,7 +348,58 @@ pub fn run(ctx: &mut Ctx) {
         ctx.nontrivial(hash_str(&format!("{:?}|{}", ts.iter().map(|t| shape(&env, t, 4)).collect::<Vec<_>>(), bytes.len())));
         ctx.sample(input);
     });
-    ctx.cases("near-miss", 0.35, |ctx, rng| {
+    // argument lists of the wrong length: more values than types must be rejected (not a panic), fewer values than types
+    // only when the missing ones are not null / opt / reserved
+    ctx.cases("argument-count-mismatch", 0.05, |ctx, rng| {
+        let env = gen_env(rng, &cfg);
+        let n = 1 + rng.usize(3);
+        let ts = gen_types(rng, &cfg, &env, n);
+        if ts.iter().any(|t| !encodable(&env, t)) {
+            return;
+        }
+        let vg = ValGen::new(&env);
+        let mut fuel = 30i64;
+        let mut vals = Vec::new();
+        for t in &ts {
+            let Some(v) = vg.gen(rng, t, &mut fuel) else { return };
+            let Ok(idl) = to_idl(&env, t, &v, None) else { return };
+            vals.push(idl);
+        }
+        let (cenv, cts) = candid_side(&env, &ts, None);
+        let keep = rng.usize(n); // types given: fewer than values
+        let args = IDLArgs { args: vals.clone() };
+        let input = || json!({"env": env.to_string(), "types_given": ts[..keep].iter().map(|t| t.to_string()).collect::<Vec<_>>(), "values": format!("{args:?}").chars().take(600).collect::<String>()});
+        for from_parser in [true, false] {
+            match catch(|| args.clone().annotate_types(from_parser, &cenv, &cts[..keep])) {
+                Err(p) => ctx.violation(&format!("panic|annotate_types|{}", p.sig()), &p.message, input()),
+                Ok(Ok(a)) => ctx.violation(
+                    "annotate_types-accepts-surplus-values",
+                    &format!("{} values annotated with {keep} types returned {} values", vals.len(), a.args.len()),
+                    input(),
+                ),
+                Ok(Err(_)) => ctx.count("agree:annotate_types-rejects-surplus-values"),
+            }
+        }
+        // fewer values than types: the omitted ones must be null / opt / reserved
+        let fewer = IDLArgs { args: vals[..keep].to_vec() };
+        let omitted_ok = ts[keep..].iter().all(|t| matches!(env.unfold(t), Some(RType::Null | RType::Reserved | RType::Opt(_))));
+        match catch(|| fewer.clone().annotate_types(true, &cenv, &cts)) {
+            Err(p) => ctx.violation(&format!("panic|annotate_types|{}", p.sig()), &p.message, input()),
+            Ok(r) => {
+                if r.is_ok() != omitted_ok {
+                    ctx.violation(
+                        &format!("annotate_types-omitted-values|{}", if omitted_ok { "rejects-optional" } else { "accepts-required" }),
+                        &format!("{keep} values for {n} types: {:?}", r.map(|a| a.args.len()).map_err(|e| e.to_string())),
+                        input(),
+                    );
+                } else {
+                    ctx.count("agree:annotate_types-omitted-values");
+                }
+            }
+        }
+        ctx.nontrivial(hash_str(&format!("argc|{keep}|{n}|{}", shape(&env, &ts[0], 2))));
+    });
+    ctx.cases("near-miss", 0.3, |ctx, rng| {
         let env = gen_env(rng, &cfg);
         let cand = gen_types(rng, &cfg, &env, 1);
         let vg = ValGen::new(&env);
